@@ -194,7 +194,7 @@ static void oracle_C10(const Case &c, vf::Stats &st) {
   if (temps.size() >= 2) st.nontrivial.insert(c.hash()); st.max("distinct_temporaries", (long long)temps.size());
   st.outcomes.insert(vf::fnv(showc(ref::canon_stream(got))));
   // end to end: values
-  orc::An a(c.files, c.main); if (a.ref_ok) { vf::Stats s2; orc::oracle_C01(a, s2); for (auto &v : s2.viol) st.violation(key, "end to end: " + v.what, cj); if (s2.cnt.count("finished")) st.add("end_to_end_runs_compared"); }
+  orc::An a(c.files, c.main); if (a.ref_ok) { vf::Stats s2; orc::oracle_C01(a, s2); for (auto &v : s2.viol) st.violation(key, "end to end: " + v.what, cj); if (s2.cnt.count("finished")) st.add("end_to_end_runs_compared"); } else st.add("end_to_end_skipped(reference rejects the expanded source)");
   if (temps.size() >= 4) st.sample("{\"source\":" + vf::jstr(c.files.at(c.main)) + ",\"temporaries\":" + std::to_string(temps.size()) + "}", 2);
 }
 // all nestings up to depth d and sequences up to length 3 of IF / SAVE uses
@@ -233,6 +233,22 @@ static Level fam_nestings(int depth, int seqlen) {
               Case c; c.main = "main"; c.budget = 100; c.files["guard"] = "g9 := 0 ;";
               c.files["main"] = std::string("x0 := ") + (init ? "1" : "0") + ";\nDEFINE KEEP <ID> <P> DONE AS INCLUDE \"guard\" #0 := $0 ;\n $1 ;\n $0 := #0\nENDDEF\n\nDEFINE SETTO7 <ID> AS INCLUDE \"guard\" #0 := 7 ;\n $0 := #0\nENDDEF\n" + use;
               cb(c);
+            }
+            // temporaries in every syntactic position of a body: call argument by name, call target, WHILE variable,
+            // LOOP bound, operand of +c; the slot is filled with code that needs compiler scratch registers itself
+            {
+              std::string uselib = "PROGRAM addp IN a, b OUT a DO LOOP b DO a := a + 1 END END\n"
+                                   "DEFINE WITHTMP <ID> <P> DONE AS\n  #0 := RUN addp WITH $0 , 1 END ;\n  #1 := RUN addp WITH #0 , 2 END ;\n  $1 ;\n"
+                                   "  WHILE #1 != 0 DO #1 := #1 - 1 ; $0 := $0 + 1 END ;\n  $0 := RUN addp WITH #0 , $0 END\nENDDEF\n"
+                                   "DEFINE BUMP <ID> BY <V> AS\n  #0 := $1 ;\n  #1 := #0 + 1 ;\n  LOOP #1 DO $0 := $0 + 1 END ;\n  $0 := RUN addp WITH $0 , #0 END\nENDDEF\n";
+              std::vector<std::string> slots = {"x1 := x1 + 1", "x2 := RUN addp WITH x1 , 3 END", "x2 := RUN addp WITH RUN addp WITH x1 , 1 END , 2 END", "IF x0 THEN x1 := x1 + 1 ELSE x2 := 2 END",
+                                                "SAVE x1 x1 := 7 RESTORE", "BUMP x2 BY 2", "BUMP x1 BY x2", "BUMP x1 BY RUN addp WITH x1 , 1 END"};
+              std::vector<std::string> u1 = slots; for (auto &sl : slots) u1.push_back("WITHTMP x1 " + sl + " DONE");
+              std::vector<std::string> u2 = u1; if (depth >= 2) for (auto &sl : u1) if (sl.rfind("WITHTMP", 0) == 0) u2.push_back("WITHTMP x2 " + sl + " ; x1 := x1 + 1 DONE");
+              for (int init = 0; init < 2; init++) {
+                std::string pre = std::string(IFLIB0) + uselib + "x0 := " + std::to_string(init) + ";\nx1 := 3;\n";
+                for (auto &a : u2) { cb(mk(pre, a)); if (seqlen >= 2) for (auto &b : u1) cb(mk(pre, a + ";\n" + b)); }
+              }
             }
             // two files defining temporaries on equal line numbers
             for (auto body : {"A x1 ; B x2", "B x1 ; A x1", "A x1 ; A x2 ; B x1", "A x1 ; B x1 ; A x1"}) {
